@@ -1,0 +1,29 @@
+//! Entry points for the verification harness in /verif. Compiled only with
+//! `--cfg simple_dns_verif`; nothing here changes the behaviour of the library.
+#![allow(missing_docs)]
+
+pub use crate::resource_record_manager::{DomainResourceFilter, ResourceRecordManager};
+use crate::InstanceInformation;
+use simple_dns::{Name, Packet, ResourceRecord};
+
+/// `crate::build_reply`
+pub fn build_reply<'b>(
+    packet: Packet,
+    resources: &'b ResourceRecordManager<'b>,
+) -> Option<(Packet<'b>, bool)> {
+    crate::build_reply(packet, resources)
+}
+
+/// `InstanceInformation::from_records`
+pub fn instance_from_records<'b>(
+    service_name: &Name<'b>,
+    records: impl Iterator<Item = &'b ResourceRecord<'b>>,
+) -> Option<InstanceInformation> {
+    InstanceInformation::from_records(service_name, records)
+}
+
+#[cfg(feature = "sync")]
+pub use crate::sync_discovery::verif_add_response_to_resources as sync_add_response_to_resources;
+
+#[cfg(feature = "async-tokio")]
+pub use crate::async_discovery::verif_add_response_to_resources as async_add_response_to_resources;
